@@ -142,6 +142,10 @@ class C02Oracle(Oracle):
                 return
         # direction: an Underflow needs some removal that can reach min_volume, an Overflow some addition
         # that can reach max_volume (adds and removes budgeted separately: any order of sub-steps)
+        if op["op"] == "transfer" and not self.int_max:
+            # with a non-integer worklist max_volume the splitter can ask for single steps above the requested
+            # volume (a defect under C06, which is not claimed here): such a spurious refusal is not judged
+            return
         if oc == "VolumeUnderflowError" and not under_possible:
             self.fail("C02.class", i, op, oc, "VolumeUnderflowError although no removal of the call can reach a min_volume")
         elif oc == "VolumeOverflowError" and not over_possible:
